@@ -240,6 +240,13 @@ def show_vals(vs):
 # ---- the compositional denotation with plain Python (first principles) --------------------------
 
 
+DENOTE_LIMIT = 20000
+
+
+class TooBig(Exception):
+    """the exact distribution of this tree is too large to enumerate in a check"""
+
+
 def denote(tree, budget=None):
     """exact distribution of the outcome tuple: {tuple: weight} by enumeration with plain dicts"""
     t = tree[0]
@@ -254,6 +261,8 @@ def denote(tree, budget=None):
     def prod(ds):
         acc = {(): 1}
         for d in ds:
+            if len(acc) * len(d) > DENOTE_LIMIT:
+                raise TooBig()
             nxt = {}
             for a, wa in acc.items():
                 for b, wb in d.items():
